@@ -466,6 +466,157 @@ impl G for Kw {
     }
 }
 
+// ---- the other kinds of struct, and a byte buffer ----
+#[derive(Debug, Clone, PartialEq, Serialize, Deserialize)]
+pub struct Marker;
+#[derive(Debug, Clone, PartialEq, Serialize, Deserialize)]
+#[serde(rename = "nil")]
+pub struct NilMark;
+macro_rules! g_unit_struct {
+    ($name:ident, $wire:expr) => {
+        impl G for $name {
+            fn ty(out: &mut String) {
+                out.push_str(&format!("US {}", hex($wire.as_bytes())));
+            }
+            fn read(t: &mut Toks) -> Self {
+                expect(t, "u");
+                $name
+            }
+            fn show(&self, out: &mut String) {
+                out.push('u');
+            }
+        }
+    };
+}
+g_unit_struct!(Marker, "Marker");
+g_unit_struct!(NilMark, "nil");
+
+#[derive(Debug, Clone, PartialEq, Serialize, Deserialize)]
+pub struct Meters(i64);
+impl G for Meters {
+    fn ty(out: &mut String) {
+        out.push_str("NT I64");
+    }
+    fn read(t: &mut Toks) -> Self {
+        expect(t, "T");
+        expect(t, "1");
+        Meters(G::read(t))
+    }
+    fn show(&self, out: &mut String) {
+        out.push_str("T 1 ");
+        self.0.show(out);
+    }
+}
+#[derive(Debug, Clone, PartialEq, Serialize, Deserialize)]
+pub struct Wrapped<T>(T);
+impl<T: G> G for Wrapped<T> {
+    fn ty(out: &mut String) {
+        out.push_str("NT ");
+        T::ty(out);
+    }
+    fn read(t: &mut Toks) -> Self {
+        expect(t, "T");
+        expect(t, "1");
+        Wrapped(T::read(t))
+    }
+    fn show(&self, out: &mut String) {
+        out.push_str("T 1 ");
+        self.0.show(out);
+    }
+}
+#[derive(Debug, Clone, PartialEq, Serialize, Deserialize)]
+pub struct Pair(i32, String);
+impl G for Pair {
+    fn ty(out: &mut String) {
+        out.push_str("TS 2 I32 Str");
+    }
+    fn read(t: &mut Toks) -> Self {
+        expect(t, "T");
+        expect(t, "2");
+        let a = G::read(t);
+        let b = G::read(t);
+        Pair(a, b)
+    }
+    fn show(&self, out: &mut String) {
+        out.push_str("T 2 ");
+        self.0.show(out);
+        out.push(' ');
+        self.1.show(out);
+    }
+}
+#[derive(Debug, Clone, PartialEq, Serialize, Deserialize)]
+pub struct Trip(u64, Marker, Option<char>);
+impl G for Trip {
+    fn ty(out: &mut String) {
+        out.push_str("TS 3 U64 ");
+        Marker::ty(out);
+        out.push_str(" O C");
+    }
+    fn read(t: &mut Toks) -> Self {
+        expect(t, "T");
+        expect(t, "3");
+        let a = G::read(t);
+        let b = G::read(t);
+        let c = G::read(t);
+        Trip(a, b, c)
+    }
+    fn show(&self, out: &mut String) {
+        out.push_str("T 3 ");
+        self.0.show(out);
+        out.push(' ');
+        self.1.show(out);
+        out.push(' ');
+        self.2.show(out);
+    }
+}
+/// a byte buffer that goes through serialize_bytes / deserialize_byte_buf (what serde_bytes::ByteBuf does)
+#[derive(Debug, Clone, PartialEq)]
+pub struct Blob(Vec<u8>);
+impl Serialize for Blob {
+    fn serialize<S: serde::Serializer>(&self, s: S) -> Result<S::Ok, S::Error> {
+        s.serialize_bytes(&self.0)
+    }
+}
+impl<'de> Deserialize<'de> for Blob {
+    fn deserialize<D: serde::Deserializer<'de>>(d: D) -> Result<Self, D::Error> {
+        struct V;
+        impl<'de> serde::de::Visitor<'de> for V {
+            type Value = Blob;
+            fn expecting(&self, f: &mut std::fmt::Formatter) -> std::fmt::Result {
+                f.write_str("bytes")
+            }
+            fn visit_bytes<E: serde::de::Error>(self, v: &[u8]) -> Result<Blob, E> {
+                Ok(Blob(v.to_vec()))
+            }
+            fn visit_byte_buf<E: serde::de::Error>(self, v: Vec<u8>) -> Result<Blob, E> {
+                Ok(Blob(v))
+            }
+        }
+        d.deserialize_byte_buf(V)
+    }
+}
+impl G for Blob {
+    fn ty(out: &mut String) {
+        out.push_str("By");
+    }
+    fn read(t: &mut Toks) -> Self {
+        expect(t, "s");
+        Blob(unhex(t.next()))
+    }
+    fn show(&self, out: &mut String) {
+        out.push_str(&format!("s {}", hex(&self.0)));
+    }
+}
+#[derive(Debug, Clone, PartialEq, Serialize, Deserialize)]
+pub struct Holder {
+    m: Marker,
+    d: Meters,
+    p: Pair,
+    b: Blob,
+    o: Option<Wrapped<i16>>,
+}
+g_struct!(Holder, "R", m: Marker, d: Meters, p: Pair, b: Blob, o: Option<Wrapped<i16>>);
+
 fn run<T: G>(op: &str, rest: &str) -> String {
     match op {
         "rt" => {
@@ -519,6 +670,9 @@ fn registry() -> &'static Vec<(String, Runner)> {
             HashMap<u32, (i8, String)>, BTreeMap<char, bool>,
             Plain, Nested, User, Team, E, Vec<Plain>, Option<User>, BTreeMap<String, Vec<(u8, E)>>,
             Kw, Vec<Kw>, (Kw, bool), BTreeMap<String, Kw>,
+            Marker, NilMark, Meters, Wrapped<u64>, Wrapped<Vec<Option<u8>>>, Wrapped<Wrapped<char>>, Pair, Trip, Blob, Holder,
+            Vec<Marker>, Option<Marker>, Option<Meters>, Option<Wrapped<String>>, (Marker, Meters, Pair), BTreeMap<String, Trip>,
+            Vec<Blob>, Option<Blob>, BTreeMap<i64, Wrapped<E>>, Vec<Holder>, Option<NilMark>,
         );
         v
     })
